@@ -101,6 +101,46 @@ fn check_placement(plain: &str, syms: &[String], ins: &[(usize, usize)], bases: 
     }
 }
 
+/// three sequences in up to three slots (a styled, coloured hyperlink is three sequences in a row)
+fn space3(r: &mut Run, name: &str, n: usize) -> Result<(), MachineryError> {
+    let alpha = [L, SP, HY, W, NL];
+    let bases = gamma().bases();
+    // indices into SEQS: SGR, hyperlink, hyperlink with hyphens
+    let three = [0usize, 1, 2];
+    let sp = Space { name: name.into(), menu: menu(&alpha), max_len: n, desc: format!("plain texts of length <= {} x every placement of 3 sequences from {{SGR, hyperlink, hyperlink with hyphens}} in non-decreasing slots x {} x widths 0..=len+2", n, gamma().describe()) };
+    r.space(sp, |seq, cx| {
+        if seq.is_empty() {
+            return;
+        }
+        let syms: Vec<String> = {
+            let whole = build(seq, &alpha);
+            let mut v = vec![];
+            let mut it = whole.chars();
+            for &k in seq {
+                let len = build(&[k], &alpha).chars().count();
+                v.push(it.by_ref().take(len).collect::<String>());
+            }
+            v
+        };
+        let plain: String = syms.concat();
+        cx.set_input(&plain);
+        let slots = syms.len() + 1;
+        for s1 in 0..slots {
+            for s2 in s1..slots {
+                for s3 in s2..slots {
+                    for &q1 in &three {
+                        for &q2 in &three {
+                            for &q3 in &three {
+                                check_placement(&plain, &syms, &[(s1, q1), (s2, q2), (s3, q3)], &bases, cx);
+                            }
+                        }
+                    }
+                }
+            }
+        }
+    })
+}
+
 fn space(r: &mut Run, name: &str, n: usize, double: bool) -> Result<(), MachineryError> {
     let alpha = [L, SP, HY, W, CM, NL];
     let bases = gamma().bases();
@@ -147,5 +187,5 @@ fn run(r: &mut Run) -> Result<(), MachineryError> {
     let t = r.tier;
     space(r, "C13/one-sequence", t.pick(5, 6), false)?;
     space(r, "C13/two-sequences", t.pick(3, 5), true)?;
-    Ok(())
+    space3(r, "C13/three-sequences", t.pick(2, 3))
 }
